@@ -71,13 +71,13 @@ pub fn sanitize(n: &str) -> String {
 
 /// does the effective access of `id` (a batch) depend on thread-local systems
 /// registered inside it (at any depth)?  returns masks without them.
-fn eff_without_tl(info: &PlanInfo, id: usize) -> (u8, u8) {
+fn eff_without_tl(info: &PlanInfo, id: usize) -> (u64, u64) {
     let n = &info.nodes[id];
     match n.kind {
         Kind::Tl if n.parent.is_some() => (0, 0),
         Kind::Batch => {
-            let mut r = n.reads.iter().fold(0u8, |m, x| m | (1 << x));
-            let mut w = n.writes.iter().fold(0u8, |m, x| m | (1 << x));
+            let mut r = n.reads.iter().fold(0u64, |m, x| m | (1u64 << x));
+            let mut w = n.writes.iter().fold(0u64, |m, x| m | (1u64 << x));
             for c in &n.children {
                 let (cr, cw) = eff_without_tl(info, *c);
                 r |= cr;
@@ -89,7 +89,7 @@ fn eff_without_tl(info: &PlanInfo, id: usize) -> (u8, u8) {
     }
 }
 
-fn conflict_masks(a: (u8, u8), b: (u8, u8)) -> bool {
+fn conflict_masks(a: (u64, u64), b: (u64, u64)) -> bool {
     (a.1 & (b.0 | b.1)) != 0 || (a.0 & b.1) != 0
 }
 
@@ -642,7 +642,7 @@ pub fn check_state(p: &Props, ops: &[Op], info: &PlanInfo, obs: &Obs, last_only:
                         (None, None) => "setup-did-not-create-default",
                         (None, Some(_)) => if exp[k].is_none() { "setup-created-unexpected-resource" } else { "setup-created-non-default-value" },
                     };
-                    out.push(v("C13", sig, format!("resource {} after Dispatcher::setup is {:?}, expected {:?} (pre-inserted: {:?})", nm, first[k], exp[k], pre[k])));
+                    out.push(v("C13", sig, format!("resource {} after Dispatcher::setup is {:?}, expected {:?} (pre-inserted: {:?}{})", nm, first[k], exp[k], pre[k], if mask & 4 != 0 { "; the world also holds resources of the same types under other dynamic ids" } else { "" })));
                 }
                 if second[k] != first[k] {
                     out.push(v("C13", "setup-not-idempotent", format!("a second setup changed resource {} from {:?} to {:?}", nm, first[k], second[k])));
@@ -652,7 +652,7 @@ pub fn check_state(p: &Props, ops: &[Op], info: &PlanInfo, obs: &Obs, last_only:
                 }
             }
             if *extra {
-                out.push(v("C13", "setup-created-unexpected-resource", "setup created a resource nobody declared through a default provider".to_string()));
+                out.push(v("C13", "setup-created-unexpected-resource", if mask & 4 != 0 { "setup touched a resource of the same type under another dynamic id (which nothing declares)".to_string() } else { "setup created a resource nobody declared through a default provider".to_string() }));
             }
         }
         if let Some(su) = &obs.setups {
